@@ -22,19 +22,39 @@ def nt_all(rec):
     return True
 
 
+def mcc(module, base, **kw):
+    d = dict(module=module, cfg={'quick': base + '_quick.cfg', 'thorough': base + '_thorough.cfg'})
+    d.update(kw)
+    return d
+
+
+MC_WRAP = mcc('MC_Wrap', 'MC_Wrap', invariants='Inv_Width Inv_Overflow Inv_Conserve Inv_Frags Inv_Greedy Inv_WsIdem Inv_Pad')
+MC_WRAP_PRE = mcc('MC_Wrap', 'MC_WrapPre', invariants='Inv_Width Inv_Overflow Inv_Conserve Inv_Frags Inv_Pad')
+MC_WRAP_MARKS = mcc('MC_Wrap', 'MC_WrapMarks', invariants='Inv_Width Inv_Conserve Inv_Frags')
+MC_BLOCK = mcc('MC_Block', 'MC_Block', invariants='Inv_C02_Step Inv_C03_Step Inv_C09_Balanced Inv_C01 Inv_C11 Inv_P_C02 Inv_P_C03')
+
+MC_WORDS = mcc('MC_Words', 'MC_Words', invariants='Inv_Greedy Inv_Width')
+
 # property -> plan
 PLANS = {
     'C02': dict(
         fams=[('c02', dict(quick=3000, thorough=60000), {})],
-        mc=[],
+        mc=[MC_WRAP, MC_BLOCK],
         nontrivial=nt_near_width,
         rule='seeded grammar documents (blocks, inline, lists, quotes, tables with colspans/nesting, pre, links, wide+combining chars) x option mixes without overflow/no_link_wrapping x widths 1..120; non-trivial = renders Ok with a line within 1 column of the width; distinct by sha256(html,width,cfg)',
         assumptions=['unicode-width 0.2 cell widths as measured by the harness; string-level width also checked per line',
                      'documents drawn from the seeded grammar (VERIF_SEED); exhaustive part is the MC configuration scope'],
     ),
+    'C04': dict(
+        fams=[('c04', dict(quick=3000, thorough=60000), {})],
+        mc=[MC_WRAP, MC_WORDS],
+        nontrivial=lambda rec: any(r['res']['k'] == 'ok' and len(r['res']['lines']) >= 2 for r in rec.get('runs', [])),
+        rule='MC: every character sequence (MC_Wrap) and every word sequence (MC_Words) in scope; random: paragraphs of 1..60 words (wide, combining) split across text nodes and em/strong/code/span/a/i, bare / max_wrap_width / inside blockquote or li, widths 1..40; non-trivial = renders to at least two lines; distinct by sha256(html,width,cfg)',
+        assumptions=['reference greedy wrapper Greedy() is the declarative definition in spec/Wrap.tla', 'words consisting only of zero-width characters are outside the claim (as in the quantifier)'],
+    ),
     'C03': dict(
         fams=[('c03', dict(quick=3000, thorough=60000), {})],
-        mc=[],
+        mc=[MC_WRAP_MARKS, MC_BLOCK],
         nontrivial=nt_ok_nonempty,
         rule='seeded grammar documents with unique letter tokens x decorators x option mixes x widths 1..200; non-trivial = renders Ok with at least one line; distinct by sha256(html,width,cfg)',
         assumptions=['generated hrefs/ids/src are letter-free so Letters() cannot mistake markup for text',
@@ -136,6 +156,25 @@ def run_check(prop, tier, seed, t0, no_mc=False):
                     drift.append(c['id'])
                     break
     crashes = [(i, r) for i, r in enumerate(recs) if r.get('crash')]
+    # sampled replay of random cases through the full model (binding impl -> spec; drift, not verdict)
+    n_model = plan.get('model_sample', dict(quick=150, thorough=3000))[tier]
+    model_checked = 0
+    if n_model and plan.get('model_ok', True):
+        n_mc_cases = n_canon + mc_info['behaviours']
+        sp = os.path.join(wd, 'model.trace')
+        with open(trace_path) as f, open(sp, 'w') as g:
+            for i, l in enumerate(f):
+                if i >= n_mc_cases and model_checked < n_model:
+                    g.write(l)
+                    model_checked += 1
+        if model_checked:
+            mj, mbad, mstates, mwall = vlib.judge(sp, prop, module='TraceModel')
+            tstates += mstates
+            first = n_mc_cases
+            for i, _ in mbad:
+                drift.append(cases[first + i].get('id'))
+            n_pred += model_checked
+            log('[model] %d random cases replayed through the model, %d drift (%.1fs TLC)' % (model_checked, len(mbad), mwall))
 
     # classification
     bad_idx = {i: cls for i, cls in bad}
